@@ -48,6 +48,11 @@ def harnesses():
                      f"string of {l} symbolic ASCII bytes"))
         out.append(H(f"c06_falsey_arr{l}", "C06", "quick", f"falsey_arr({l})", "falsey_arr",
                      f"array of {l} symbolic integers"))
+    RS_STUB = ("std::hash::RandomState::new", "crate::verif::stubs::random_state_stub")
+    out.append(H("c06_falsey_map0", "C06", "quick", "falsey_map(0)", "falsey_map", "empty map (HMap::default())",
+                 stubs=[FMT_STUB, RS_STUB]))
+    out.append(H("c06_falsey_map1", "C06", "thorough", "falsey_map(1)", "falsey_map", "map with one entry, key any i64",
+                 stubs=[FMT_STUB, RS_STUB], required=False, timeout=600, unwind=20))
     for w in (0, 1):
         out.append(H(f"c06_falsey_other{w}", "C06", "quick", f"falsey_other({w})", "falsey_other",
                      "concrete representative of a kind outside the table"))
